@@ -23,8 +23,8 @@ type Client struct {
 	// and inbound PUBREC (for the client's own QoS 2 publishes) with PUBREL.
 	AutoAck bool
 
-	buf   []byte
-	Rx    []Packet // every packet received, in order
+	buf    []byte
+	Rx     []Packet // every packet received, in order
 	nextID uint16
 }
 
